@@ -39,7 +39,7 @@ PURE_BUILTINS = {"len", "str", "int", "float", "bool", "list", "tuple", "dict", 
 class V:
     """abstract value"""
     __slots__ = ("reads", "arg", "aliases", "shallow", "local", "classes", "elem", "static", "const", "func", "bound",
-                 "is_class", "lam", "sbool")
+                 "is_class", "lam", "sbool", "unordered")
 
     def __init__(self, reads=(), arg=False, aliases=(), shallow=None, classes=None, elem=None, static=None, const=None,
                  func=None, bound=None, is_class=None, lam=None, local=None):
@@ -57,6 +57,7 @@ class V:
         self.is_class = is_class
         self.lam = lam                        # (ast.Lambda, env)
         self.sbool = None                     # statically known truth value (isinstance on sample-typed paths)
+        self.unordered = False                # a set: its iteration order is not a function of the specification
 
     def tainted(self, depth=0):
         if self.aliases or self.shallow is not None:
@@ -79,12 +80,17 @@ def merge(a: "V | None", b: "V | None") -> "V":
     classes = None
     if a.classes or b.classes:
         classes = set(a.classes or ()) | set(b.classes or ())
-    return V(reads=a.reads | b.reads, arg=a.arg or b.arg, aliases=a.aliases | b.aliases,
+    return _keep_unordered(a, b, V(reads=a.reads | b.reads, arg=a.arg or b.arg, aliases=a.aliases | b.aliases,
              shallow=a.shallow if a.shallow is not None else b.shallow, classes=classes,
              elem=merge(a.elem, b.elem) if (a.elem is not None or b.elem is not None) else None,
              static=a.static if a.static == b.static else None, const=a.const if a.const == b.const else None,
              func=a.func if a.func is b.func else None, is_class=a.is_class if a.is_class is b.is_class else None,
-             local=local)
+             local=local))
+
+
+def _keep_unordered(a, b, v):
+    v.unordered = a.unordered or b.unordered
+    return v
 
 
 _AN = [None]      # analyser currently running (observations are emitted where a read happens)
@@ -608,6 +614,8 @@ class Frame:
             self.env = self.merge_env(env_a, env_b)
         elif isinstance(st, (ast.For, ast.AsyncFor)):
             it = self.eval(st.iter)
+            if it.unordered:
+                an.emit_mut("<unordered: the iteration order of a set decides the result>", it, ast.unparse(st.iter)[:60])
             if it.static is not None and isinstance(st.target, ast.Name):
                 for name in it.static:
                     self.env[st.target.id] = V(const=name)
@@ -805,6 +813,10 @@ class Frame:
             m = merge(a, b)
             return V(reads=m.reads | c.reads, arg=m.arg or c.arg, aliases=m.aliases, shallow=m.shallow, classes=m.classes,
                      elem=m.elem, local=m.local)
+        if isinstance(node, ast.Set):
+            m = pure_of(*[self.eval(e) for e in node.elts])
+            m.unordered = True
+            return m
         if isinstance(node, (ast.List, ast.Tuple, ast.Set)):
             vals = []
             for e in node.elts:
@@ -834,6 +846,8 @@ class Frame:
             opened = 0
             for gen in node.generators:
                 it = self.eval(gen.iter)
+                if it.unordered and not isinstance(node, ast.SetComp):
+                    an.emit_mut("<unordered: the iteration order of a set decides the result>", it, ast.unparse(node)[:60])
                 reads = ref_of(reads, it)        # iterating reads the container, not its elements' content
                 if it.static is not None and isinstance(gen.target, ast.Name) and len(node.generators) == 1 \
                         and isinstance(node, ast.ListComp) and isinstance(node.elt, ast.Name) and node.elt.id == gen.target.id:
@@ -856,7 +870,9 @@ class Frame:
             for _ in range(opened):
                 an.end_block()
             self.env = saved
-            return V(reads=reads.reads | e.reads, arg=reads.arg or e.arg, elem=e)
+            res = V(reads=reads.reads | e.reads, arg=reads.arg or e.arg, elem=e)
+            res.unordered = isinstance(node, ast.SetComp)
+            return res
         if isinstance(node, ast.Lambda):
             return V(lam=(node, dict(self.env)), func=self.g)
         if isinstance(node, ast.JoinedStr):
@@ -988,6 +1004,14 @@ class Frame:
                         known = False       # a primitive / pure value is not an instance of a splink class
                     m.sbool = known
                 return m
+            if name in ("set", "frozenset") and name not in self.g:
+                m = pure_of(*allargs)
+                m.unordered = True
+                return m
+            if name in ("list", "tuple", "iter", "enumerate", "zip", "reversed", "next") and name not in self.g \
+                    and any(a.unordered for a in posargs):
+                an.emit_mut("<unordered: the iteration order of a set decides the result>", pure_of(*allargs),
+                            ast.unparse(node)[:60])
             if name in ("hasattr", "callable", "type", "id", "isinstance", "issubclass", "len", "bool") and name not in self.g:
                 return ref_of(*allargs)
             if name in PURE_BUILTINS and name not in self.g:
